@@ -287,4 +287,27 @@ theorem wloc_none {P : Nat → Prop} : ∀ t, (none : Option Nat) = some t → P
 
 end generic
 
+/-- a step of the interleaving semantics is either the interrupted futex wait (`~` on a parked
+thread: only that thread's pc changes, to the pc a regular wake-up leads to) or a regular step -/
+theorem step_cases {s s' : St} {tok : Tok} {ev : List String} (h : step s tok = some (s', ev)) :
+    (tok.tid ≤ s.cfg.W ∧ ∃ q, s' = { s with pc := upd s.pc tok.tid q } ∧
+      ((∃ rpos, s.pc tok.tid = .rBlocked rpos ∧ q = .rLdW rpos) ∨ (s.pc tok.tid = .wBlocked ∧ q = .wLock))) ∨
+    stepMain s tok = some (s', ev) := by
+  unfold step at h
+  split at h
+  next hc =>
+    left
+    refine ⟨hc.2.1, ?_⟩
+    unfold spurStep at h
+    split at h
+    next rpos hp =>
+      simp only [Option.some.injEq, Prod.mk.injEq] at h
+      exact ⟨_, h.1.symm, Or.inl ⟨rpos, hp, rfl⟩⟩
+    next hp =>
+      simp only [Option.some.injEq, Prod.mk.injEq] at h
+      exact ⟨_, h.1.symm, Or.inr ⟨hp, rfl⟩⟩
+    next => cases h
+  next => exact Or.inr h
+
+
 end MgProof.C01
